@@ -26,8 +26,19 @@ func parseCfg(s string) Config {
 		if s[2] == 'c' {
 			c.Planner = "cached"
 		}
-		if i := strings.Index(s, "m"); i >= 3 {
-			c.BatchM, _ = strconv.Atoi(s[i+1:])
+		// optional tokens after the three letters: i<k> (introspection of service k-1 fails at
+		// start-up), d (the gateway's default queryer factory), m<n> (downstream batch size)
+		rest := s[3:]
+		if strings.HasPrefix(rest, "i") && len(rest) >= 2 {
+			c.IntroFail = int(rest[1] - '0')
+			rest = rest[2:]
+		}
+		if strings.HasPrefix(rest, "d") {
+			c.DefaultFactory = true
+			rest = rest[1:]
+		}
+		if strings.HasPrefix(rest, "m") {
+			c.BatchM, _ = strconv.Atoi(rest[1:])
 		}
 	}
 	return c
